@@ -322,7 +322,7 @@ def exhaustive(L):
             for nm in names:
                 probes += ['get %s 0' % hexs(nm), 'getmulti %s 1' % hexs(nm), 'remove %s' % hexs(nm), 'putstr %s 77' % hexs(nm)]
             probes += ['sort', 'size', 'getmulti N 0', 'save 61 1 ; clear ; reload 61 1']
-            for name in [None] + names:
+            for name in ([None] + names if n < 4 else [None, b'a']):      # 4-entry tables: unfiltered walks and walks for one name
                 for k in range(0, n + 2):
                     pats = ['-'] if min(k, n) == 0 else [''.join(p) for p in itertools.product('01', repeat=min(k, n))]
                     for rm in pats:
